@@ -278,6 +278,7 @@ int run_phantom_micro(const Args& a) {
     uint64_t seed = a.num("seed", 1);
     uint64_t races = a.num("races", 200000);
     bool use_cursor = a.num("cursor", 0) != 0;
+    bool post_only = a.str("oracle", "all") == "post";
     Report rep(a.str("prop", "C06"), use_cursor ? "conc_phantom_micro_iscan" : "conc_phantom_micro_scan", seed);
     rep.set_rule("tight two-thread races on small trees (3..12 border nodes, single layer or one sub-layer; keys removed again so that key ranges of borders start before their first key): per race one short "
                  "scan/cursor with node-version collection over 1..3 borders, whose right endpoint often falls into a gap before the first key of the next border, against one inserter putting 1..2 absent in-range keys "
@@ -291,6 +292,7 @@ int run_phantom_micro(const Args& a) {
         std::string lk, rk;
         std::vector<std::string> ins;
         std::vector<std::string> rem;  // present in-interval keys the writer removes first (mixed races)
+        std::vector<std::string> out;  // absent keys just outside the interval the writer inserts last: they change the version of an edge border without touching the result
         std::string post;              // absent in-interval key inserted after both finished (C05 oracle on a concurrently taken read)
         uint32_t skew_reader{0}, skew_writer{0};
     } race;
@@ -413,6 +415,10 @@ int run_phantom_micro(const Args& a) {
                 status s = yput(ses.tok, storage, k, make_value(next_id.fetch_add(1), k, 24), true);
                 if (s != status::OK) { rep.violation("phantom:insert-status", "unique insert of an absent key failed", JObj().str("got", st(s)).done()); }
             }
+            for (auto& k : race.out) {
+                status s = yput(ses.tok, storage, k, make_value(next_id.fetch_add(1), k, 24), true);
+                if (s != status::OK) { rep.violation("phantom:insert-status", "unique insert of an absent key failed", JObj().str("got", st(s)).done()); }
+            }
             wresp = stamp();
             ses.leave();
             writer_done.store(1, std::memory_order_release);
@@ -424,6 +430,7 @@ int run_phantom_micro(const Args& a) {
     Session main_ses;
     std::vector<std::string> present, absent;
     bool layered = false;
+    bool toplink = false;
     uint64_t overlaps = 0;
     alloc::Counters c0 = alloc::counters();
     for (uint64_t rc = 0; rc < races && rep.violations() < 10; ++rc) {
@@ -435,7 +442,14 @@ int run_phantom_micro(const Args& a) {
             present.clear();
             absent.clear();
             layered = r.chance(1, 3);
+            // toplink: the layer-0 border holds values on both sides of the link to the sub-layer, so a reader is
+            // inside the sub-layer while the border that contributed values (or only the link) is modified
+            toplink = layered && r.chance(1, 2);
             std::size_t nkeys = r.range(24, 90);
+            if (toplink) {
+                for (const char* k : {"C2", "C4", "C6", "x2", "x4"}) { present.emplace_back(k); }
+                for (const char* k : {"C1", "C3", "C5", "C7", "x1", "x3", "x5"}) { absent.emplace_back(k); }
+            }
             for (std::size_t i = 0; i < nkeys; ++i) {
                 char b[32];
                 for (int j = 0; j < 4; ++j) {
@@ -459,13 +473,14 @@ int run_phantom_micro(const Args& a) {
                 }
             }
             present.swap(kept);
+            std::sort(present.begin(), present.end());
             std::sort(absent.begin(), absent.end());
             main_ses.leave();
             r2l = use_cursor && r.chance(1, 2);
             rep.count("trees");
         }
         // ---- one race
-        std::size_t lo = r.below(present.size());
+        std::size_t lo = r.below(toplink && r.chance(1, 2) ? std::min<std::size_t>(3, present.size()) : present.size());
         std::size_t hi = std::min(present.size() - 1, lo + r.below(20));
         race.lk = present[lo];
         race.rk = present[hi];
@@ -508,6 +523,20 @@ int run_phantom_micro(const Args& a) {
                     if (std::find(race.rem.begin(), race.rem.end(), k) == race.rem.end()) { race.rem.push_back(k); }
                 }
             }
+        }
+        race.out.clear();
+        if (r.chance(1, 3)) {
+            // nearest absent keys below l_key / above r_key: not part of the result, but they often live in the first / last border the read touches
+            auto below = std::lower_bound(absent.begin(), absent.end(), race.lk);
+            auto above = std::upper_bound(absent.begin(), absent.end(), race.rk);
+            bool up = r.chance(1, 2);
+            if (up && above != absent.end()) {
+                race.out.push_back(toplink && r.chance(1, 2) ? absent.back() : *above);
+            } else if (below != absent.begin()) {
+                race.out.push_back(*(below - 1));
+            }
+            if (!race.out.empty() && (race.out[0] >= race.lk && race.out[0] <= race.rk)) { race.out.clear(); }
+            if (!race.out.empty() && r.chance(1, 2)) { race.ins.clear(); } // sometimes the out-of-interval insert is the only insert
         }
         if (r.chance(1, 2)) {
             // post-insert candidate: a removed key, or any absent key of the interval that is not inserted in this race
@@ -552,7 +581,7 @@ int run_phantom_micro(const Args& a) {
         c0 = c1;
         auto describe = [&]() {
             JObj d;
-            d.str("api", use_cursor ? (r2l ? "iscan-backward" : "iscan-forward") : "scan").boolean("layered", layered).str("l_key", race.lk).str("r_key", race.rk).str("inserted", race.ins[0]).str("insert_target", target);
+            d.str("api", use_cursor ? (r2l ? "iscan-backward" : "iscan-forward") : "scan").boolean("layered", layered).str("l_key", race.lk).str("r_key", race.rk).str("inserted", race.ins.empty() ? std::string("-") : race.ins[0]).str("inserted_outside", race.out.empty() ? std::string("-") : race.out[0]).boolean("toplink", toplink).str("insert_target", target);
             d.num("result_keys", result_keys.size()).num("keys_present_after", want.size()).num("set_size", nv.size()).boolean("split", split).num("race", rc);
             return d;
         };
@@ -561,7 +590,10 @@ int run_phantom_micro(const Args& a) {
             if (i > 0 && result_keys[i] <= result_keys[i - 1]) { ordered = false; }
             if (!std::binary_search(want.begin(), want.end(), result_keys[i])) { ordered = false; }
         }
-        if (!reader_problem.empty()) {
+        if (post_only) {
+            // C05 runs: only the oracles of that property (post-insert staleness, non-empty set)
+            if (reader_problem.empty() && nv.empty()) { rep.violation("phantom:empty-version-set", "reader collected no node version", describe().done()); }
+        } else if (!reader_problem.empty()) {
             rep.violation(reader_problem.rfind("value", 0) == 0 ? "phantom:reader-invalid-value" : "phantom:reader-status", "reader failed: " + reader_problem, describe().done());
         } else if (!ordered) {
             // independent of the freshness of the version set: duplicates, disorder, keys outside the interval
@@ -596,6 +628,7 @@ int run_phantom_micro(const Args& a) {
         main_ses.reenter();
         if (post_done) { yk::remove(main_ses.tok, storage, race.post); }
         for (auto& k : race.rem) { yput(main_ses.tok, storage, k, make_value(next_id.fetch_add(1), k, 24)); }
+        for (auto& k : race.out) { yk::remove(main_ses.tok, storage, k); }
         for (auto& k : race.ins) {
             if (yk::remove(main_ses.tok, storage, k) != status::OK) { rep.violation("phantom:inserted-key-lost", "a key whose insert returned OK cannot be removed at quiescence", JObj().str("key", k).done()); }
         }
